@@ -86,41 +86,81 @@ def need(name, reg, pat, what, flags=0):
         return None
     return m
 
+# ------------------------------------------------------------------ shape recognition (semantic, see rustsym.py)
+from rustsym import exec_inlined, unify_outcome, find_fn, TranslationError as SymError, strip_attrs
+SRC_NA = strip_attrs(src_nc)
+
+def match_fn(name, reg, fn_name, pat_params, pat_text, what, helpers=''):
+    """bindings of the K_ holes if `fn fn_name` inside `reg` (or, failing that, a function of that name defined once
+    anywhere in the file), executed symbolically with its pure helpers inlined, has the outcome of `pat_text`
+    (whose own helpers, with holes, are given in `helpers`)"""
+    if reg is None: return None
+    base, txt = reg
+    txt = strip_attrs(txt)
+    f = find_fn(txt, fn_name)
+    if f is None and len(re.findall(r'\bfn\s+%s\b' % fn_name, SRC_NA)) == 1:
+        base, f = 0, find_fn(SRC_NA, fn_name)
+    if f is None:
+        err(name, 'fn %s not found' % fn_name, line_of(base)); return None
+    params, ret, body, off = f
+    ln = line_of(base + off)
+    text = ' '.join(body.split())[:500]
+    if len(params) != len(pat_params):
+        err(name, 'fn %s takes %d parameters, expected %d' % (fn_name, len(params), len(pat_params)), ln, text); return None
+    try:
+        act = exec_inlined(body, params, [txt, SRC_NA])
+    except (SymError, ValueError, IndexError) as ex:
+        err(name, 'cannot read the body of %s: %s (expected %s)' % (fn_name, ex, what), ln, text); return None
+    pat = exec_inlined(pat_text, pat_params, [helpers])
+    bnd, why = unify_outcome(pat, act)
+    if bnd is None:
+        err(name, 'expected %s (up to naming of temporaries, constant spelling, operand order of + * & ^): %s' % (what, why), ln, text); return None
+    return bnd
+
+def kint(bnd, k, name):
+    if bnd is None: return 0
+    v = bnd[k]
+    if v[0] != 'int' or v[1] < 0:
+        err(name, 'constant %s is not a non-negative integer literal: %s' % (k, v[2])); return 0
+    return v[1]
+
+def kfloat_int(bnd, k, name):
+    """an integer-valued float literal"""
+    if bnd is None: return 0
+    v = bnd[k]
+    if v[0] != 'float' or v[1] != int(v[1]) or v[1] < 0:
+        err(name, 'constant %s is not an integer-valued float literal: %s' % (k, v[2])); return 0
+    return int(v[1])
+
+def kfloat_dec(bnd, k, name):
+    if bnd is None: return (0, 0)
+    v = bnd[k]
+    if v[0] != 'float' or v[1] < 0:
+        err(name, 'constant %s is not a non-negative float literal: %s' % (k, v[2])); return (0, 0)
+    try: return float_lit(v[2])
+    except ValueError as ex:
+        err(name, str(ex)); return (0, 0)
+
 # ------------------------------------------------------------------ Noise
 noise_impl = region('Noise::next_sample', r'impl\s+Noise\s*\{')
-noise1 = region('noise_1', r'fn\s+noise_1\s*\(\s*seed\s*:\s*u64\s*\)\s*->\s*f64\s*\{', within=noise_impl) if noise_impl else None
 vals = {}
-for k in (1, 2, 3):
-    m = need('noise_1.PRIME_%d' % k, noise1, r'constPRIME_%d:u64=(0x[0-9a-fA-F_]+|[0-9_]+)(?:u64)?;' % k, '`const PRIME_%d: u64 = <int>;`' % k)
-    vals['prime%d' % k] = num_int(m.group(1)) if m else 0
-m = need('noise_1.x', noise1, r'letx=\(seed<<(0x[0-9a-fA-F_]+|[0-9_]+)\)\^seed;', '`let x = (seed << K) ^ seed;`')
-vals['seedShift'] = num_int(m.group(1)) if m else 0
-m = need('noise_1.expr', noise1,
-         r';1\.0(?:_?f64)?-\(x\.wrapping_mul\(x\.wrapping_mul\(x\)\.wrapping_mul\(PRIME_1\)\.wrapping_add\(PRIME_2\),?\)\.wrapping_add\(PRIME_3\)&(0x[0-9a-fA-F_]+|[0-9_]+)\)asf64/([0-9_]+\.[0-9_]*(?:_?f64)?)\}$',
-         '`1.0 - (x.wrapping_mul(x.wrapping_mul(x).wrapping_mul(PRIME_1).wrapping_add(PRIME_2)).wrapping_add(PRIME_3) & MASK) as f64 / DIV`')
-if m:
-    vals['noiseMask'] = num_int(m.group(1))
-    mm, ee = float_lit(m.group(2))
-    if ee != 0: err('noise_1.expr', 'divisor %s is not an integer-valued literal' % m.group(2), line_of(noise1[0]))
-    vals['noiseDiv'] = mm if ee == 0 else 0
-else:
-    vals['noiseMask'] = 0; vals['noiseDiv'] = 0
-m = need('Noise::next_sample.step', noise_impl,
-         r'letnoise=noise_1\(self\.seed\);self\.seed=self\.seed\.wrapping_add\((0x[0-9a-fA-F_]+|[0-9_]+)(?:u64)?\);noise\}',
-         '`let noise = noise_1(self.seed); self.seed = self.seed.wrapping_add(1); noise`')
-vals['seedInc'] = num_int(m.group(1)) if m else 0
+NOISE_1 = ('fn noise_1(seed: u64) -> f64 { let x = (seed << K_seedShift) ^ seed; '
+           '1.0 - (x.wrapping_mul(x.wrapping_mul(x).wrapping_mul(K_prime1).wrapping_add(K_prime2)).wrapping_add(K_prime3) & K_noiseMask) as f64 / K_noiseDiv }')
+bn = match_fn('Noise::next_sample', noise_impl, 'next_sample', [],
+    'let noise = noise_1(self.seed); self.seed = self.seed.wrapping_add(K_seedInc); noise',
+    '`fn noise_1(seed) { let x = (seed << K) ^ seed; 1.0 - (x.wrapping_mul(x.wrapping_mul(x).wrapping_mul(PRIME_1).wrapping_add(PRIME_2)).wrapping_add(PRIME_3) & MASK) as f64 / DIV }` '
+    'and `let noise = noise_1(self.seed); self.seed = self.seed.wrapping_add(1); noise`', helpers=NOISE_1)
+for k in ('prime1', 'prime2', 'prime3', 'seedShift', 'noiseMask', 'seedInc'): vals[k] = kint(bn, k, 'Noise::next_sample')
+vals['noiseDiv'] = kfloat_int(bn, 'noiseDiv', 'Noise::next_sample')
 
 # ------------------------------------------------------------------ NoiseSimplex
 simplex_impl = region('NoiseSimplex::next_sample', r'impl<S>\s*NoiseSimplex<S>\s*where\s*S\s*:\s*Step\s*,?\s*\{')
-m = need('NoiseSimplex.TWO_POW_SIXTEEN', simplex_impl, r'constTWO_POW_SIXTEEN:f64=([0-9_]+\.[0-9_]*(?:_?f64)?);', '`const TWO_POW_SIXTEEN: f64 = <float>;`')
-vals['simplexWrap'] = 0
-if m:
-    mm, ee = float_lit(m.group(1))
-    if ee != 0: err('NoiseSimplex.TWO_POW_SIXTEEN', 'not integer-valued', line_of(simplex_impl[0]))
-    else: vals['simplexWrap'] = mm
-need('NoiseSimplex.phase', simplex_impl, r'letphase=self\.phase\.next_phase_wrapped_to\(TWO_POW_SIXTEEN\);', '`let phase = self.phase.next_phase_wrapped_to(TWO_POW_SIXTEEN);`')
+bn = match_fn('NoiseSimplex::next_sample', simplex_impl, 'next_sample', [],
+    'simplex_noise_1d(self.phase.next_phase_wrapped_to(K_simplexWrap))',
+    '`let phase = self.phase.next_phase_wrapped_to(TWO_POW_SIXTEEN); ... simplex_noise_1d(phase)`')
+vals['simplexWrap'] = kfloat_int(bn, 'simplexWrap', 'NoiseSimplex::next_sample')
 perm = []
-m = need('simplex_noise_1d.PERM', simplex_impl, r'constPERM:\[u8;(0x[0-9a-fA-F_]+|[0-9_]+)\]=\[([0-9a-fA-Fxu_,]*)\];', '`const PERM: [u8; 256] = [ ... ];`')
+m = need('simplex_noise_1d.PERM', (0, src_nc), r'constPERM:\[u8;(0x[0-9a-fA-F_]+|[0-9_]+)\]=\[([0-9a-fA-Fxu_,]*)\];', '`const PERM: [u8; 256] = [ ... ];`')
 if m:
     n = num_int(m.group(1))
     perm = [num_int(t) for t in m.group(2).split(',') if t != '']
@@ -128,53 +168,46 @@ if m:
         err('simplex_noise_1d.PERM', 'table has %d entries, declared %d, expected 256' % (len(perm), n), line_of(simplex_impl[0]))
     if any(p > 255 for p in perm):
         err('simplex_noise_1d.PERM', 'entry does not fit u8', line_of(simplex_impl[0]))
-need('simplex_noise_1d.hash', simplex_impl, r'fnhash\(i:i64\)->u8\{PERM\[\(iasu8\)asusize\]\}', '`fn hash(i: i64) -> u8 { PERM[(i as u8) as usize] }`')
-m = need('simplex_noise_1d.grad', simplex_impl,
-         r'fngrad\(hash:i64,x:f64\)->f64\{leth=hash&(0x[0-9a-fA-F_]+|[0-9_]+);letmutgrad=1\.0\+\(h&(0x[0-9a-fA-F_]+|[0-9_]+)\)asf64;if\(h&(0x[0-9a-fA-F_]+|[0-9_]+)\)!=0\{grad=-grad;\}grad\*x\}',
-         '`fn grad(hash, x) { let h = hash & 0x0F; let mut grad = 1.0 + (h & 7) as f64; if (h & 8) != 0 { grad = -grad; } grad * x }`')
-vals['gradMask'], vals['gradMag'], vals['gradSign'] = (num_int(m.group(1)), num_int(m.group(2)), num_int(m.group(3))) if m else (0, 0, 0)
-need('simplex_noise_1d.body', simplex_impl,
-     r'leti0=ops::f64::floor\(x\)asi64;leti1=i0\+1;letx0=x-i0asf64;letx1=x0-1\.0;'
-     r'letmutt0=1\.0-x0\*x0;t0\*=t0;letn0=t0\*t0\*grad\(hash\(i0\)asi64,x0\);'
-     r'letmutt1=1\.0-x1\*x1;t1\*=t1;letn1=t1\*t1\*grad\(hash\(i1\)asi64,x1\);',
-     'the corner/contribution statements of simplex_noise_1d (i0, i1, x0, x1, t0, n0, t1, n1)')
-m = need('simplex_noise_1d.scale', simplex_impl, r';([0-9_]+\.[0-9_]*(?:_?f64)?)\*\(n0\+n1\)\}', '`<scale> * (n0 + n1)` as the result')
-vals['scaleNum'], vals['scaleExp'] = float_lit(m.group(1)) if m else (0, 0)
+SIMPLEX_HELPERS = ('fn hash(i: i64) -> u8 { PERM[(i as u8) as usize] } '
+    'fn grad(hash: i64, x: f64) -> f64 { let h = hash & K_gradMask; let mut grad = 1.0 + (h & K_gradMag) as f64; if (h & K_gradSign) != 0 { grad = -grad; } grad * x }')
+bn = match_fn('simplex_noise_1d', simplex_impl, 'simplex_noise_1d', ['x'],
+    'let i0 = ops::f64::floor(x) as i64; let i1 = i0 + 1; let x0 = x - i0 as f64; let x1 = x0 - 1.0; '
+    'let mut t0 = 1.0 - x0 * x0; t0 *= t0; let n0 = t0 * t0 * grad(hash(i0) as i64, x0); '
+    'let mut t1 = 1.0 - x1 * x1; t1 *= t1; let n1 = t1 * t1 * grad(hash(i1) as i64, x1); K_scale * (n0 + n1)',
+    'simplex_noise_1d: corners i0 = floor(x), i1 = i0 + 1, distances x0, x1, t = (1 - d^2)^2, n = t^2 * grad(hash(i), d) with '
+    '`hash(i) = PERM[(i as u8) as usize]`, `grad(hash, x) = { let h = hash & 0x0F; let mut grad = 1.0 + (h & 7) as f64; if (h & 8) != 0 { grad = -grad; } grad * x }`, result `<scale> * (n0 + n1)`',
+    helpers=SIMPLEX_HELPERS)
+vals['gradMask'], vals['gradMag'], vals['gradSign'] = (kint(bn, k, 'simplex_noise_1d') for k in ('gradMask', 'gradMag', 'gradSign'))
+vals['scaleNum'], vals['scaleExp'] = kfloat_dec(bn, 'scale', 'simplex_noise_1d')
 
 # ------------------------------------------------------------------ Phase / Sine / Saw / Square
 ph = region('Phase::next_phase', r'impl<S>\s*Phase<S>\s*where\s*S\s*:\s*Step\s*,?\s*\{')
-need('Phase::next_phase_wrapped_to', ph, r'pubfnnext_phase_wrapped_to\(&mutself,rem:f64\)->f64\{letphase=self\.next;self\.next=\(self\.next\+self\.step\.step\(\)\)%rem;phase\}',
-     '`let phase = self.next; self.next = (self.next + self.step.step()) % rem; phase`')
-m = need('Phase::next_phase', ph, r'pubfnnext_phase\(&mutself\)->f64\{self\.next_phase_wrapped_to\(([0-9_]+\.[0-9_]*(?:_?f64)?)\)\}', '`self.next_phase_wrapped_to(1.0)`')
-vals['phaseWrap'] = 0
-if m:
-    mm, ee = float_lit(m.group(1))
-    if ee != 0: err('Phase::next_phase', 'wrap value not integer-valued', line_of(ph[0]))
-    else: vals['phaseWrap'] = mm
+match_fn('Phase::next_phase_wrapped_to', ph, 'next_phase_wrapped_to', ['rem'],
+    'let phase = self.next; self.next = (self.next + self.step.step()) % rem; phase',
+    '`let phase = self.next; self.next = (self.next + self.step.step()) % rem; phase`')
+bn = match_fn('Phase::next_phase', ph, 'next_phase', [], 'self.next_phase_wrapped_to(K_phaseWrap)', '`self.next_phase_wrapped_to(1.0)`')
+vals['phaseWrap'] = kfloat_int(bn, 'phaseWrap', 'Phase::next_phase')
 sine = region('Sine::next', r'impl<S>\s*Signal\s+for\s+Sine<S>')
-m = need('Sine::next', sine, r'constPI_2:f64=core::f64::consts::PI\*([0-9_]+\.[0-9_]*(?:_?f64)?);letphase=self\.phase\.next_phase\(\);ops::f64::sin\(PI_2\*phase\)\}',
-         '`const PI_2: f64 = core::f64::consts::PI * 2.0; ... ops::f64::sin(PI_2 * phase)`')
+bn = match_fn('Sine::next', sine, 'next', [], 'ops::f64::sin((core::f64::consts::PI * K_sineMul) * self.phase.next_phase())',
+    '`const PI_2: f64 = core::f64::consts::PI * 2.0; let phase = self.phase.next_phase(); ops::f64::sin(PI_2 * phase)`')
 PI_F64 = 3.14159265358979323846264338327950288   # core::f64::consts::PI (nearest f64)
 vals['twoPiBits'] = 0
-if m:
-    mm, ee = float_lit(m.group(1))
-    k = PI_F64 * (mm / 10 ** ee)        # one f64 multiplication, as rustc's const evaluation does
+if bn is not None and bn['sineMul'][0] == 'float':
+    k = PI_F64 * bn['sineMul'][1]        # one f64 multiplication, as rustc's const evaluation does (commutative)
     vals['twoPiBits'] = struct.unpack('<Q', struct.pack('<d', k))[0]
+elif bn is not None: err('Sine::next', 'the factor of PI is not a float literal')
 saw = region('Saw::next', r'impl<S>\s*Signal\s+for\s+Saw<S>')
-m = need('Saw::next', saw, r'letphase=self\.phase\.next_phase\(\);phase\*-([0-9_]+\.[0-9_]*(?:_?f64)?)\+([0-9_]+\.[0-9_]*(?:_?f64)?)\}\}$', '`phase * -2.0 + 1.0`')
-vals['sawMul'], vals['sawAdd'] = 0, 0
-if m:
-    a, ea = float_lit(m.group(1)); b, eb = float_lit(m.group(2))
-    if ea or eb: err('Saw::next', 'non-integer constants', line_of(saw[0]))
-    else: vals['sawMul'], vals['sawAdd'] = a, b
+bn = match_fn('Saw::next', saw, 'next', [], 'self.phase.next_phase() * -K_sawMul + K_sawAdd', '`phase * -2.0 + 1.0`')
+vals['sawMul'], vals['sawAdd'] = kfloat_int(bn, 'sawMul', 'Saw::next'), kfloat_int(bn, 'sawAdd', 'Saw::next')
 sq = region('Square::next', r'impl<S>\s*Signal\s+for\s+Square<S>')
-m = need('Square::next', sq, r'letphase=self\.phase\.next_phase\(\);ifphase<([0-9_]+\.[0-9_]*(?:_?f64)?)\{1\.0(?:_?f64)?\}else\{-1\.0(?:_?f64)?\}\}\}$', '`if phase < 0.5 { 1.0 } else { -1.0 }`')
-vals['squareThrNum'], vals['squareThrExp'] = float_lit(m.group(1)) if m else (0, 0)
+bn = match_fn('Square::next', sq, 'next', [], 'if self.phase.next_phase() < K_thr { 1.0 } else { -1.0 }', '`if phase < 0.5 { 1.0 } else { -1.0 }`')
+vals['squareThrNum'], vals['squareThrExp'] = kfloat_dec(bn, 'thr', 'Square::next')
 # step = hz / rate
-need('Rate::const_hz', (0, src_nc), r'pubfnconst_hz\(self,hz:f64\)->ConstHz\{ConstHz\{step:hz/self\.hz\}\}', '`ConstHz { step: hz / self.hz }`')
+rate_impl = region('Rate::const_hz', r'impl\s+Rate\s*\{')
+match_fn('Rate::const_hz', rate_impl, 'const_hz', ['hz'], 'ConstHz { step: hz / self.hz }', '`ConstHz { step: hz / self.hz }`')
 hzstep = region('Hz::step', r'impl<S>\s*Step\s+for\s+Hz<S>')
-need('Hz::step', hzstep, r'fnstep\(&mutself\)->f64\{lethz=self\.hz\.next\(\);hz/self\.rate\.hz\}', '`let hz = self.hz.next(); hz / self.rate.hz`')
-need('phase()', (0, src_nc), r'Phase\{step:step,next:0\.0,?\}', '`Phase { step: step, next: 0.0 }`')
+match_fn('Hz::step', hzstep, 'step', [], 'self.hz.next() / self.rate.hz', '`let hz = self.hz.next(); hz / self.rate.hz`')
+need('phase()', (0, src_nc), r'Phase\{step:step,next:0\.0(?:_?f64)?,?\}', '`Phase { step: step, next: 0.0 }`')
 
 # ------------------------------------------------------------------ emit
 os.makedirs(OUT, exist_ok=True)
